@@ -563,11 +563,13 @@ Plan generate(const std::string& mode, uint64_t seed, uint64_t run) {
     // count and length headers on both sides of 65535/65536
     big = true;
     size_t n = 65534 + size_t(r.below(4));
-    unsigned what = unsigned(r.below(mp ? 4 : 3));
-    // (an object of 65 535 members costs the library itself close to a minute under the sanitizers: every key is
-    // looked up among all copied strings before it is stored; keep it, but rarer than the other shapes)
-    if (what == 1 && !r.chance(1, 4))
-      what = r.chance(1, 2) ? 0 : 2;
+    // the shape is a function of the run number, so that every batch of eight consecutive runs holds all of them.
+    // (An object of 65 535 members costs the library itself close to a minute under the sanitizers - every key is
+    // looked up among all copied strings before it is stored - so it gets one run in eight.)
+    static const unsigned shapeOfRun[8] = {0, 1, 2, 3, 0, 2, 3, 2};
+    unsigned what = shapeOfRun[run % 8];
+    if (what == 3 && !mp)
+      what = 0;
     if (what == 3) {
       // bin 32 / ext 32 handed over through MsgPackBinary / MsgPackExtension: every byte of the 4-byte length
       // field takes a non-zero value somewhere in this list (only builds with 4-byte string lengths can hold them)
